@@ -27,12 +27,19 @@ import time
 from pathlib import Path
 
 from .. import common
+from ..translate import filtersrc as tr_filtersrc
 
 PROP = "C19"
-MODULES = ["XpmVerif.Properties.C19"]
+MODULES = ["XpmVerif.Properties.C19", "XpmVerif.Properties.C19Src", "XpmVerif.Properties.C19Links"]
 REQUIRED = ["XpmVerif.C19." + n for n in (
     "evalImpl_eq_spec", "clean_exact", "clean_never_running", "clean_noop_without_perform", "orphans_exact",
-    "history_safe", "history_noop")]
+    "history_safe", "history_noop")] + ["XpmVerif.C19Src." + n for n in (
+    "src_state", "src_varGet", "src_atom", "src_logic", "src_summary", "src_compile", "src_eval", "src_cleanFlag",
+    "src_removeDecision", "src_xpKey", "src_clean", "src_orphSources", "src_orphDecision", "src_orphans", "src_runCmds",
+    "evalSrc_eq_spec", "cleanSrc_exact", "cleanSrc_never_running", "cleanSrc_noop_without_perform", "orphansSrc_exact",
+    "historySrc_safe")] + ["XpmVerif.C19Links." + n for n in (
+    "clean_exact_links", "clean_never_running_links", "clean_noop_without_perform_links", "orphans_exact_links",
+    "orphans_keeps_through_link", "history_safe_links")]
 
 
 def _own_findings():
@@ -56,7 +63,18 @@ _own_findings()
 
 
 def prove(ctx):
-    common.check_proofs(ctx, MODULES, required=REQUIRED)
+    """regenerate `Generated/FilterSrc.lean` from the tree under test (pieces outside the translated subset fall back on the
+    reference definition chosen by the behavioural probe), then re-check the theorems and the `src_*` obligations"""
+    ok, msg, unknown = tr_filtersrc.generate(common.REPO, common.LEAN, probe=lambda: _quirks(ctx))
+    ctx.notes.append(f"translator filtersrc: {msg}")
+    ctx.extra_cov["translator_pieces"] = {"translated": len(tr_filtersrc.PIECES) - len(unknown), "fallback_on_correspondence": sorted(unknown)}
+    common.check_proofs(ctx, MODULES, required=REQUIRED, translate_msgs=[(ok, msg)])
+
+
+def _quirks(ctx):
+    if getattr(ctx, "_q", None) is None:
+        ctx._q = probe_quirks(ctx)
+    return ctx._q
 
 
 # ---------------------------------------------------------------- generators
@@ -268,9 +286,9 @@ def materialise(ws, layout, links=()):
     (ws / "xp").mkdir()
     for j in layout["jobs"]:
         write_job(ws, j)
-    for ty, name, target in links:  # what `deprecated list --fix` leaves: jobs/<ty>/<name> -> jobs/<ty>/<target>
+    for ty, name, tty, target in norm_links(links):  # what `deprecated list --fix` leaves: jobs/<ty>/<name> -> jobs/<ty>/<target>
         (ws / "jobs" / ty).mkdir(exist_ok=True)
-        (ws / "jobs" / ty / name).symlink_to(ws / "jobs" / ty / target)
+        (ws / "jobs" / ty / name).symlink_to(ws / "jobs" / tty / target)  # the target may be missing (dangling) or a link (chain)
     for x in layout["xps"]:
         (ws / "xp" / x["name"]).mkdir()
         for k, entries in (("jobs", x["index"]), ("jobs.bak", x["backup"])):
@@ -282,6 +300,54 @@ def materialise(ws, layout, links=()):
                 p.parent.mkdir(parents=True, exist_ok=True)
                 if not p.is_symlink():
                     p.symlink_to(ws / "jobs" / ty / i)  # absolute target, as Scheduler.aio_registerJob does
+
+
+def norm_links(links):
+    """[ty, name, target] (same type directory) or [ty, name, target type, target id] -> 4-tuples"""
+    return [(l[0], l[1], l[0], l[2]) if len(l) == 3 else tuple(l) for l in links]
+
+
+def py_resolve(layout, links, key):
+    """plain-Python `Path.resolve()` + `is_dir()` on the store entry `key`: the (ty, id) of the directory, or None"""
+    store = {(j["ty"], j["id"]) for j in layout["jobs"]}
+    lk = {(ty, name): (tty, tid) for ty, name, tty, tid in norm_links(links)}
+    key = tuple(key)
+    for _ in range(len(lk) + 1):
+        if key in store:
+            return key
+        if key not in lk:
+            return None
+        key = lk[key]
+    return None
+
+
+def link_keys(ws):
+    return sorted(f"{p.parent.name}/{p.name}" for p in (ws / "jobs").glob("*/*") if p.is_symlink())
+
+
+def gen_links(rng, layout, index_too=True):
+    """symbolic links in the job store: fix-style link to a job, chain of links, dangling link, link named by an index"""
+    links = []
+    if not layout["jobs"]:
+        return links
+    t = rng.choice(layout["jobs"])
+    r = rng.random()
+    if r < 0.5:
+        links.append([t["ty"], "newid", t["id"]])
+    elif r < 0.75:
+        links += [[t["ty"], "newid", t["id"]], [t["ty"], "newid2", "newid"]]
+    elif r < 0.9:
+        links.append([t["ty"], "dangling", "nothing"])
+    else:
+        t2 = rng.choice(layout["jobs"])
+        links += [[t["ty"], "newid", t2["ty"], t2["id"]], [t["ty"], "dangling", "nothing"]]
+    if index_too and layout["xps"] and rng.random() < 0.5:
+        l = rng.choice(links)
+        x = rng.choice(layout["xps"])
+        which = "index" if x["backup"] is None or rng.random() < 0.7 else "backup"
+        if [l[0], l[1]] not in x[which]:
+            x[which].append([l[0], l[1]])
+    return links
 
 
 def write_job(ws, j):
@@ -391,7 +457,8 @@ def monitor_clean(ctx, case, ws, layout, opts, before, after, exc, states, fobj,
     jobs = layout["jobs"]
     remaining = set(job_keys(ws))
     flt = opts["filter"]
-    index = {x["name"]: {tuple(k) for k in x["index"]} for x in layout["xps"]}
+    links = case.get("links", [])
+    index = {x["name"]: {tuple(k) for k in x["index"]} | ({py_resolve(layout, links, k) for k in x["index"]} - {None}) for x in layout["xps"]}
     store = {(j["ty"], j["id"]) for j in jobs}
     removed_any = False
     expected_gone = set()
@@ -500,7 +567,7 @@ def monitor_orphans(ctx, case, ws, layout, opts, before, after, exc, links=()):
         refs |= {tuple(k) for k in x["index"]}
         if not opts["ignore_old"] and x["backup"] is not None:
             refs |= {tuple(k) for k in x["backup"]}
-    via_link = {(ty, target) for ty, name, target in links if (ty, name) in refs}
+    via_link = {py_resolve(layout, links, (ty, name)) for ty, name, _, _ in norm_links(links) if (ty, name) in refs} - {None}
     expected_gone = set()
     removed_any = False
     for j in layout["jobs"]:
@@ -516,7 +583,7 @@ def monitor_orphans(ctx, case, ws, layout, opts, before, after, exc, links=()):
             if k in refs:
                 ctx.monitor_fail("orphans:removed-referenced", f"orphans --clean removed {key} which an experiment index references", jcase)
             elif k in via_link:
-                name = next(n for ty, n, target in links if (ty, target) == k and (ty, n) in refs)
+                name = next(n for ty, n, _, _ in norm_links(links) if py_resolve(layout, links, (ty, n)) == k and (ty, n) in refs)
                 ctx.monitor_fail("orphans:removed-referenced-through-link",
                                  f"orphans --clean removed the directory {key}; an experiment index references it through the link jobs/{k[0]}/{name}", jcase)
         elif exc is None and opts["clean"] and k not in refs and k not in via_link:
@@ -527,7 +594,7 @@ def monitor_orphans(ctx, case, ws, layout, opts, before, after, exc, links=()):
         else:
             ctx.monitor_fail(f"orphans:raised:{exc_name(exc)}", f"orphans raised {exc!r}", case)
     gone = before - after
-    link_paths = {f"jobs/{ty}/{name}" for ty, name, _ in links}
+    link_paths = {f"jobs/{ty}/{name}" for ty, name, _, _ in norm_links(links)}
     extra = {p for p in gone if p not in link_paths and not any(p == f"jobs/{k}" or p.startswith(f"jobs/{k}/") for k in expected_gone)}
     new = after - before
     if extra or new:
@@ -660,20 +727,27 @@ def infos_of(layout):
 
 
 def run_clean_case(ctx, c, q, lines, impls, root):
-    layout, opts = c["layout"], c["opts"]
+    layout, opts, links = c["layout"], c["opts"], c.get("links", [])
     ws = root / f"c{ctx.evaluations}"
-    materialise(ws, layout)
+    materialise(ws, layout, links)
     raised, remaining, states = do_clean(ctx, c, ws, layout, opts)
+    left_links = link_keys(ws)
     shutil.rmtree(ws)
-    lines.append({"op": "clean", "q": q, "layout": layout_line(layout), "opts": opts_line(opts), "rx": rx_table(opts["filter"], infos_of(layout))})
-    impls.append({"raised": raised is not None, "remaining": remaining})
+    if links:  # symbolic links in the job store: `Model/CleanLinks.lean`
+        lines.append({"op": "cleanL", "q": q, "layout": dict(layout_line(layout), links=[list(l) for l in norm_links(links)]), "opts": opts_line(opts),
+                      "rx": rx_table(opts["filter"], infos_of(layout))})
+        impls.append({"raised": raised is not None, "remaining": remaining, "links": left_links})
+        ctx.count("store_links", "clean:" + ("dangling" if any(py_resolve(layout, links, (l[0], l[1])) is None for l in links) else "live"))
+    else:
+        lines.append({"op": "clean", "q": q, "layout": layout_line(layout), "opts": opts_line(opts), "rx": rx_table(opts["filter"], infos_of(layout))})
+        impls.append({"raised": raised is not None, "remaining": remaining})
     lines.append({"op": "state", "q": q, "jobs": layout_line(layout)["jobs"]})
     impls.append({"impl": [states[f"{j['ty']}/{j['id']}"] for j in layout["jobs"]]})
     n_removed = len(layout["jobs"]) - len(remaining)
     ctx.count("clean_outcome", "raised" if raised else ("removed-some" if 0 < n_removed < len(layout["jobs"]) else "removed-all" if n_removed else "removed-none"))
     ctx.count("clean_opts", ("xp" if opts["experiment"] else "-") + ("+filter" if opts["filter"] else "") + ("+perform" if opts["perform"] else ""))
     ctx.case({"kind": "clean", "jobs": [[j["ty"], j["id"], j["done"], j["failed"], j["pid"], j["alive"], j["tags"]] for j in layout["jobs"]], "xps": layout["xps"],
-              "experiment": opts["experiment"], "filter": opts["text"], "perform": opts["perform"]},
+              "links": [list(l) for l in links], "experiment": opts["experiment"], "filter": opts["text"], "perform": opts["perform"]},
              0 < n_removed < len(layout["jobs"]))
 
 
@@ -682,11 +756,20 @@ def run_orphans_case(ctx, c, q, lines, impls, root):
     ws = root / f"o{ctx.evaluations}"
     materialise(ws, layout, links)
     raised, remaining = do_orphans(ctx, c, ws, layout, opts, links)
+    left_links = link_keys(ws)
     shutil.rmtree(ws)
     n_removed = len(layout["jobs"]) - len(remaining)
-    if not links:  # symbolic links in the job store are outside the model (monitors only)
+    if not links:
         lines.append({"op": "orphans", "layout": layout_line(layout), "opts": {"clean": opts["clean"], "ignore_old": opts["ignore_old"]}})
         impls.append({"remaining": remaining, "raised": raised})
+    else:  # symbolic links in the job store: `Model/CleanLinks.lean`.  A link whose target directory was itself removed is
+        # unlinked or left dangling depending on the enumeration order of the directory: left out of the comparison.
+        gone = {tuple(k.split("/")) for k in (f"{j['ty']}/{j['id']}" for j in layout["jobs"]) if k not in remaining}
+        ambiguous = sorted(f"{ty}/{name}" for ty, name, _, _ in norm_links(links) if py_resolve(layout, links, (ty, name)) in gone)
+        lines.append({"op": "orphansL", "layout": dict(layout_line(layout), links=[list(l) for l in norm_links(links)]),
+                      "opts": {"clean": opts["clean"], "ignore_old": opts["ignore_old"]}, "ambiguous": ambiguous})
+        impls.append({"remaining": remaining, "raised": raised, "links": [l for l in left_links if l not in ambiguous]})
+        ctx.count("store_links", "orphans:" + ("dangling" if any(py_resolve(layout, links, (l[0], l[1])) is None for l in links) else "live"))
     ctx.count("orphans_outcome", ("link:" if links else "") + ("raised" if raised else "removed-some" if 0 < n_removed < len(layout["jobs"]) else "removed-all" if n_removed else "removed-none"))
     ctx.case({"kind": "orphans", "jobs": [[j["ty"], j["id"]] for j in layout["jobs"]], "xps": layout["xps"], "links": [list(l) for l in links],
               "clean": opts["clean"], "ignore_old": opts["ignore_old"]}, 0 < n_removed < len(layout["jobs"]))
@@ -741,14 +824,16 @@ def gen_case(rng, kind):
         return {"kind": "filter", "expr": expr, "text": render(expr, rng), "jobs": jobs}
     layout = gen_layout(rng)
     if kind == "clean":
-        return {"kind": "clean", "layout": layout, "opts": gen_clean_opts(rng, layout)}
+        c = {"kind": "clean", "layout": layout, "opts": gen_clean_opts(rng, layout)}
+        if rng.random() < 0.12 and layout["jobs"]:
+            c["links"] = gen_links(rng, layout)
+            # `--ready` on a store entry that is not a directory raises (finding C19-N5, reported separately)
+            c["opts"]["flags"] = [f for f in c["opts"]["flags"] if f != "--ready"]
+        return c
     if kind == "orphans":
         c = {"kind": "orphans", "layout": layout, "opts": gen_orph_opts(rng)}
-        if rng.random() < 0.08 and layout["jobs"]:  # what `deprecated list --fix` leaves behind
-            t = rng.choice(layout["jobs"])
-            c["links"] = [[t["ty"], "newid", t["id"]]]
-            if layout["xps"] and rng.random() < 0.5:
-                rng.choice(layout["xps"])["index"].append([t["ty"], "newid"])
+        if rng.random() < 0.15 and layout["jobs"]:  # what `deprecated list --fix` leaves behind, chains, dangling links
+            c["links"] = gen_links(rng, layout)
         return c
     cmds = []
     for _ in range(rng.choice([2, 2, 3])):
@@ -760,6 +845,10 @@ def gen_case(rng, kind):
 
 
 CORPUS = [
+    # a pattern with backslash escapes on a value only the escaped form matches (constants reach `re.compile` verbatim)
+    {"kind": "filter", "expr": {"first": {"k": "re", "v": "model", "p": "\\w+ \\w+"}, "rest": []}, "text": 'model ~ "\\w+ \\w+"',
+     "jobs": [{"ty": "a.t", "id": "0a1", "done": True, "failed": False, "pid": False, "alive": False, "tags": {"model": "a b"}},
+              {"ty": "a.t", "id": "0b2", "done": True, "failed": False, "pid": False, "alive": False, "tags": {"model": "w w"}}]},
     # F14 (in / not in / ~), F21, F17 witnesses and the documented example of `jobs --help`
     {"kind": "filter", "expr": {"first": {"k": "in", "v": "model", "cs": ["bm25"]}, "rest": []}, "text": 'model in ["bm25"]',
      "jobs": [{"ty": "a.t", "id": "0a1", "done": True, "failed": False, "pid": False, "alive": False, "tags": {"model": "bm25"}}]},
@@ -798,7 +887,7 @@ def run_cases(ctx, cases, q, with_model=True):
     if not with_model or not lines:
         return
     try:
-        outs = common.run_driver("C19", lines)
+        outs = common.run_driver("C19", [dict(l, src=True) for l in lines])
     except Exception as e:
         ctx.disagree({"driver": "C19"}, None, None, f"model driver failed: {e}")
         return
@@ -816,6 +905,11 @@ def run_cases(ctx, cases, q, with_model=True):
             mi, ii = {"raised": m.get("raised"), "remaining": m.get("remaining")}, _canon(i)
         elif op == "orphans":
             mi, ii = {"remaining": m.get("remaining"), "raised": None}, _canon(i)
+        elif op == "cleanL":
+            mi, ii = {"raised": m.get("raised"), "remaining": m.get("remaining"), "links": sorted(m.get("links", []))}, _canon(i)
+        elif op == "orphansL":
+            mi = {"remaining": m.get("remaining"), "raised": None, "links": sorted(l for l in m.get("links", []) if l not in line["ambiguous"])}
+            ii = _canon(i)
         else:
             mi, ii = {"remaining": m.get("remaining")}, _canon(i)
         ctx.traces_validated += 1
@@ -835,7 +929,7 @@ def correspond(ctx):
         "a job is 'running' when its pid file names a live process and no .done marker exists; 'finished' = .done or .failed marker; for .failed+.pid without .done only the safety side (not removed while the process is alive) is demanded",
         "pyparsing tokenisation, click option parsing, pathlib/glob/rmtree semantics (exercised, not proved)",
     ]
-    q = probe_quirks(ctx)
+    q = _quirks(ctx)
     ctx.extra_cov["source_variant_observed"] = {k: ("pinned-defect" if v else "repaired") for k, v in q.items()}
     ctx.notes.append(f"model switches observed on the source: {q}")
     ctx._q = q
